@@ -209,3 +209,30 @@ Proof.
   destruct (Hkeep ops s1 Hops vw1 Hn1) as (vw2 & Hn2 & E2). fold s2 in Hn2.
   simpl. rewrite Hn2. rewrite E2, Hg. reflexivity.
 Qed.
+
+(* ------------------------------------------------------------------ after Commit
+   Commit does not touch the cache (in the code: cacheDB.commit only reads it; the framework's dry-run Commit relies on
+   that).  Right after the batch is written every key still reads the same... *)
+Lemma post_commit_overlay : forall db c k, sorted db -> Inv db c ->
+  overlay (apply_writes (commit_writes c) db) c k = overlay db c k.
+Proof.
+  intros db c k Hs [Hnd Hinv]. unfold overlay. destruct (cget c k) as [e|] eqn:E; auto.
+  rewrite lookup_apply_writes by auto. apply fapply_notin.
+  intros Hin. apply in_map_iff in Hin. destruct Hin as (w & Ek & Hin). unfold commit_writes in Hin.
+  apply in_flat_map in Hin. destruct Hin as ([k0 e0] & Hc & Hw). apply write_of_keys in Hw. simpl in Hw.
+  apply (cget_none _ _ E). apply in_map_iff. exists (k0, e0). split; [simpl; rewrite <- Hw; exact Ek|exact Hc].
+Qed.
+
+(* ... but the cache is then STALE with respect to the store (init/dirty describe the store before the Commit), and using
+   the same Database further is not covered by the refinement: deleting a key that was added before the Commit only
+   drops the cache entry, so the key is still read from the store. *)
+Lemma continued_use_after_commit_refuted :
+  exists db root ops1 ops2,
+    let d1 := fst (run db (init_state root) ops1) in
+    let m1 := apply_writes (fst (db_Commit d1)) db in
+    let s1 := fst (spec_run (spec_init db root) ops1) in
+    sorted db /\ m1 = s_map s1 /\ snd (run m1 d1 ops2) <> snd (spec_run s1 ops2).
+Proof.
+  exists [([10%N; 98%N], [2%N])], [10%N], [OSet 0%nat [97%N] [1%N]], [ODel 0%nat [97%N]; OGet 0%nat [97%N]].
+  split; [apply sortedb_sound; vm_compute; reflexivity|]. split; vm_compute; [reflexivity|discriminate].
+Qed.
